@@ -34,7 +34,7 @@ pub enum Op {
     AddProfile(usize, usize, Vec<(bool, String)>),
 }
 
-const CTORS: [&str; 5] = ["from_str", "new+setters", "builder", "from-lossy", "from-vec"];
+const CTORS: [&str; 8] = ["from_str", "new+setters", "builder", "from-lossy", "from-vec", "from_str+trailing-blank", "handle-into-another-field", "handle-into-this-field"];
 
 impl Op {
     fn kind(&self) -> &'static str {
@@ -169,6 +169,10 @@ pub struct RH {
     pub held_entry: Option<(usize, Entry)>,
     /// a relation handle kept across operations (entry index, alternative index, handle)
     pub held_rel: Option<(usize, usize, Relation)>,
+    /// second handles to the same targets, obtained at the same time: operations alternate between the two,
+    /// so an edit through one handle has to leave the other one attached
+    pub held_entry2: Option<Entry>,
+    pub held_rel2: Option<Relation>,
     /// use the kept handles (when they address the operation's target) instead of fetching fresh ones
     pub use_held: bool,
 }
@@ -207,7 +211,7 @@ impl RH {
         if !errs.is_empty() {
             return None;
         }
-        Some(RH { root, model, log: vec![], start: text.to_string(), shape: String::new(), held_entry: None, held_rel: None, use_held: true })
+        Some(RH { root, model, log: vec![], start: text.to_string(), shape: String::new(), held_entry: None, held_rel: None, held_entry2: None, held_rel2: None, use_held: true })
     }
 
     fn fail(&self, ctx: &mut Ctx, kind: &str, op: &Op, info: Value) {
@@ -253,33 +257,107 @@ impl RH {
         let use_held = self.use_held;
         let held_entry = &mut self.held_entry;
         let held_rel = &mut self.held_rel;
+        let held_entry2 = &mut self.held_entry2;
+        let held_rel2 = &mut self.held_rel2;
+        let alias = self.log.len() % 2 == 0;
+        let model_now = self.model.clone();
         let res = guard(before_text.len() + 512, || {
             // entry / relation handles: the ones kept from an earlier operation when they address the
             // same target (an edit through a handle must be visible in the field), otherwise fresh ones,
-            // which are then kept for later operations
+            // which are then kept for later operations. Two handles are kept per target and used in turn.
             let mut entry = |root: &Relations, i: usize| -> *mut Entry {
                 if !(use_held && matches!(held_entry, Some((k, _)) if *k == i)) {
                     *held_entry = Some((i, root.get_entry(i).unwrap()));
+                    *held_entry2 = Some(root.get_entry(i).unwrap());
                 }
-                &mut held_entry.as_mut().unwrap().1 as *mut Entry
+                if alias { held_entry2.as_mut().unwrap() as *mut Entry } else { &mut held_entry.as_mut().unwrap().1 as *mut Entry }
             };
             let mut rel = |root: &Relations, i: usize, j: usize| -> *mut Relation {
                 if !(use_held && matches!(held_rel, Some((a, b, _)) if *a == i && *b == j)) {
                     *held_rel = Some((i, j, root.get_entry(i).unwrap().get_relation(j).unwrap()));
+                    *held_rel2 = Some(root.get_entry(i).unwrap().get_relation(j).unwrap());
                 }
-                &mut held_rel.as_mut().unwrap().2 as *mut Relation
+                if alias { held_rel2.as_mut().unwrap() as *mut Relation } else { &mut held_rel.as_mut().unwrap().2 as *mut Relation }
+            };
+            // operands: built by a constructor, parsed with a trailing blank, or a handle that is attached to
+            // another field or to this field (the list model copies; the field the handle lives in must not change)
+            let mut donor: Option<(Relations, String)> = None;
+            let canon_entry = |v: &[MRel]| v.iter().map(|m| m.canonical()).collect::<Vec<_>>().join(" | ");
+            let mut mk_entry = |root: &Relations, v: &[MRel], c: u8| -> Entry {
+                match c {
+                    5 => Entry::from_str(&format!("{} ", canon_entry(v))).unwrap(),
+                    6 => {
+                        let d = Relations::from_str(&format!("x, {}, y", canon_entry(v))).unwrap();
+                        let e = d.get_entry(1).unwrap();
+                        let before = d.to_string();
+                        donor = Some((d, before));
+                        e
+                    }
+                    7 => {
+                        let k = model_now.iter().filter(|m| matches!(m, MItem::Entry(_))).position(|m| matches!(m, MItem::Entry(e) if e[..] == *v));
+                        match k {
+                            Some(k) => root.get_entry(k).unwrap(),
+                            None => build_entry(v, 0),
+                        }
+                    }
+                    c => build_entry(v, c),
+                }
+            };
+            let mut donor_r: Option<(Relations, String)> = None;
+            let mut mk_rel = |root: &Relations, m: &MRel, c: u8| -> Relation {
+                match c {
+                    5 => Relation::from_str(&format!("{} ", m.canonical())).unwrap(),
+                    6 => {
+                        let d = Relations::from_str(&format!("x | {} | y, w", m.canonical())).unwrap();
+                        let r = d.get_entry(0).unwrap().get_relation(1).unwrap();
+                        let before = d.to_string();
+                        donor_r = Some((d, before));
+                        r
+                    }
+                    7 => {
+                        let mut found = None;
+                        for (k, it) in model_now.iter().filter(|m| matches!(m, MItem::Entry(_))).enumerate() {
+                            if let MItem::Entry(e) = it {
+                                if let Some(l) = e.iter().position(|x| x == m) {
+                                    found = Some((k, l));
+                                    break;
+                                }
+                            }
+                        }
+                        match found {
+                            Some((k, l)) => root.get_entry(k).unwrap().get_relation(l).unwrap(),
+                            None => build_relation(m, 0),
+                        }
+                    }
+                    c => build_relation(m, c),
+                }
             };
             unsafe {
                 match op {
-                    Op::Push(v, c) => root.push(build_entry(v, *c)),
-                    Op::Insert(i, v, c) => root.insert(*i, build_entry(v, *c)),
-                    Op::Replace(i, v, c) => root.replace(*i, build_entry(v, *c)),
+                    Op::Push(v, c) => {
+                        let e = mk_entry(root, v, *c);
+                        root.push(e)
+                    }
+                    Op::Insert(i, v, c) => {
+                        let e = mk_entry(root, v, *c);
+                        root.insert(*i, e)
+                    }
+                    Op::Replace(i, v, c) => {
+                        let e = mk_entry(root, v, *c);
+                        root.replace(*i, e)
+                    }
                     Op::RemoveEntry(i) => {
                         root.remove_entry(*i);
                     }
                     Op::EntryRemove(i) => (*entry(root, *i)).remove(),
-                    Op::EntryPush(i, m, c) => (*entry(root, *i)).push(build_relation(m, *c)),
-                    Op::EntryReplace(i, j, m, c) => (*entry(root, *i)).replace(*j, build_relation(m, *c)),
+                    Op::EntryPush(i, m, c) => {
+                        let x = mk_rel(root, m, *c);
+                        (*entry(root, *i)).push(x)
+                    }
+                    Op::EntryReplace(i, j, m, c) => {
+                        let x = mk_rel(root, m, *c);
+                        (*entry(root, *i)).replace(*j, x)
+                    }
                     Op::EntryRemoveRel(i, j) => {
                         (*entry(root, *i)).remove_relation(*j);
                     }
@@ -293,6 +371,14 @@ impl RH {
                     Op::AddProfile(i, j, p) => (*rel(root, *i, *j)).add_profile(&profile_of(p)),
                 }
             }
+            // the field an operand handle was attached to keeps its text
+            for (d, before) in donor.iter().chain(donor_r.iter()) {
+                let after = d.to_string();
+                if after != *before {
+                    return Some((before.clone(), after));
+                }
+            }
+            None
         });
         // kept handles stay valid only while their target keeps its place in the lists
         match op {
@@ -300,12 +386,16 @@ impl RH {
             Op::Insert(..) | Op::Replace(..) | Op::RemoveEntry(..) | Op::EntryRemove(..) => {
                 self.held_entry = None;
                 self.held_rel = None;
+                self.held_entry2 = None;
+                self.held_rel2 = None;
             }
             Op::EntryReplace(..) | Op::EntryRemoveRel(..) | Op::RelRemove(..) => {
                 // alternatives moved (and the entry may be gone when its last alternative went)
                 self.held_rel = None;
+                self.held_rel2 = None;
                 if !matches!(op, Op::EntryReplace(..)) {
                     self.held_entry = None;
+                    self.held_entry2 = None;
                 }
             }
             Op::EntryPush(..) => {}
@@ -396,9 +486,16 @@ impl RH {
                 }
             }
         }
-        if let Err(f) = res {
-            self.fail(ctx, &f.class(), op, f.json());
-            return false;
+        match res {
+            Err(f) => {
+                self.fail(ctx, &f.class(), op, f.json());
+                return false;
+            }
+            Ok(Some((before, after))) => {
+                self.fail(ctx, "operand-taken-out-of-its-field", op, json!({"operand_field_before": before, "operand_field_after": after}));
+                return false;
+            }
+            Ok(None) => {}
         }
         // ---- checks
         let want = model_entries(&self.model);
@@ -490,9 +587,26 @@ const POOL: [&str; 4] = ["a", "b", "libc6", "z"];
 pub fn gen_op(r: &mut Rng, model: &[MItem]) -> Op {
     let o = ROpts { name_pool: Some(&POOL), ..ROpts::default() };
     let n = n_entries(model);
-    let ctor = r.below(5) as u8;
-    let rel_ctor = r.below(4) as u8;
-    let gen_entry = |r: &mut Rng| -> Vec<MRel> { (0..r.range(1, 2)).map(|_| relgen::gen_relation(r, &o)).collect() };
+    let ctor = r.below(8) as u8;
+    let rel_ctor = [0u8, 1, 2, 3, 5, 6, 7][r.below(7)];
+    // an operand that is a handle into this field (7) denotes a copy of what it points to
+    let existing: Vec<&Vec<MRel>> = model.iter().filter_map(|m| if let MItem::Entry(e) = m { Some(e) } else { None }).collect();
+    let ex_entry = if existing.is_empty() { None } else { Some(existing[r.below(existing.len())].clone()) };
+    let ex_rel = ex_entry.as_ref().map(|e| e[r.below(e.len())].clone());
+    let ctor = if ctor == 7 && ex_entry.is_none() { 0 } else { ctor };
+    let rel_ctor = if rel_ctor == 7 && ex_rel.is_none() { 0 } else { rel_ctor };
+    let gen_entry = |r: &mut Rng| -> Vec<MRel> {
+        if ctor == 7 {
+            return ex_entry.clone().unwrap();
+        }
+        (0..r.range(1, 2)).map(|_| relgen::gen_relation(r, &o)).collect()
+    };
+    let gen_rel = |r: &mut Rng| -> MRel {
+        if rel_ctor == 7 {
+            return ex_rel.clone().unwrap();
+        }
+        relgen::gen_relation(r, &o)
+    };
     if n == 0 {
         return if r.chance(1, 2) { Op::Push(gen_entry(r), ctor) } else { Op::Insert(0, gen_entry(r), ctor) };
     }
@@ -505,8 +619,8 @@ pub fn gen_op(r: &mut Rng, model: &[MItem]) -> Op {
         3 => Op::Replace(i, gen_entry(r), ctor),
         4 => Op::RemoveEntry(i),
         5 => Op::EntryRemove(i),
-        6 => Op::EntryPush(i, relgen::gen_relation(r, &o), rel_ctor),
-        7 => Op::EntryReplace(i, j, relgen::gen_relation(r, &o), rel_ctor),
+        6 => Op::EntryPush(i, gen_rel(r), rel_ctor),
+        7 => Op::EntryReplace(i, j, gen_rel(r), rel_ctor),
         8 => Op::EntryRemoveRel(i, j),
         9 => Op::RelRemove(i, j),
         10 => Op::SetVersion(i, j, Some((r.pick_s(&relgen::OPS).to_string(), r.pick_s(&relgen::VERSIONS).to_string()))),
@@ -556,7 +670,7 @@ fn empty_lane(ctx: &mut Ctx, idx: u64) {
         1 => Relations::from(vec![]),
         _ => Relations::from_str("").unwrap_or_default(),
     };
-    let h = RH { root, model: vec![], log: vec![], start: String::new(), shape: String::new(), held_entry: None, held_rel: None, use_held: true };
+    let h = RH { root, model: vec![], log: vec![], start: String::new(), shape: String::new(), held_entry: None, held_rel: None, held_entry2: None, held_rel2: None, use_held: true };
     let nops = r.range(1, if ctx.thorough() { 12 } else { 7 });
     run_history(ctx, h, &mut r, nops);
 }
